@@ -26,6 +26,30 @@ WORDS = ["user", "order", "item", "id", "name", "list", "get", "info", "x1", "v1
          "Req", "Resp", "data", "A", "B2", "_u", "returns", "service", "syntax", "type2", "handler", "doc"]
 
 
+DELETED_KINDS = ["d_info0", "d_infoz", "d_import", "d_imports0", "d_importsz", "d_types"]
+DELETED_TEXT = {"d_info0": "info ()", "d_infoz": 'info (\n\ttitle: ""\n\tdesc: ``\n)', "d_import": 'import ""',
+                "d_imports0": "import ()", "d_importsz": 'import (\n\t""\n)', "d_types": "type ()"}
+
+
+def deletion_matrix():
+    """every statement kind the formatter deletes x what stands before it (nothing, a single-line
+    import, a run of them, an import group, a type, a service, syntax, another deleted statement) x
+    what stands behind it (end of file, a single-line import, an import group, a type, a service)"""
+    before = {"start": "", "import": 'import "a.api"\n', "imports": 'import "a.api"\nimport "b.api"\n',
+              "group": 'import (\n\t"a.api"\n)\n', "type": "type A {}\n", "service": "service s {\n\t@handler h\n\tget /a\n}\n",
+              "syntax": 'syntax = "v1"\n', "deleted": 'import "a.api"\ntype ()\n'}
+    after = {"eof": "", "import": 'import "z.api"\n', "group": 'import (\n\t"z.api"\n)\n', "type": "type Z {}\n",
+             "service": "service z {\n\t@handler hz\n\tget /z\n}\n"}
+    res = []
+    for dk, dt in DELETED_TEXT.items():
+        for bk, bt in before.items():
+            for ak, at in after.items():
+                src = bt + dt + "\n" + at
+                if src.strip():
+                    res.append(src)
+    return res
+
+
 class Gen:
     def __init__(self, rng, opts=None):
         self.r = rng
@@ -121,6 +145,17 @@ class Gen:
             kinds.append(r.choice(["import", "imports", "type", "type", "types", "types", "service", "service", "service",
                                    "info", "syntax"] if r.random() < 0.15 else
                                   ["import", "imports", "type", "types", "types", "service", "service"]))
+        if self.o["empties"] and self.o["empty_after_import"] and r.random() < 0.3:
+            # runs of single-line imports, and statements the formatter deletes in every position
+            # relative to them and to the other statements (start, between, end of file)
+            out = []
+            for k in kinds:
+                out += ["import"] * r.choice([2, 3]) if (k == "import" and r.random() < 0.5) else [k]
+            kinds = out
+            for _ in range(r.choice([1, 1, 2, 3])):
+                near = [i + d for i, k in enumerate(kinds) if k == "import" for d in (0, 1)]
+                pos = r.choice(near) if near and r.random() < 0.6 else r.randint(0, len(kinds))
+                kinds.insert(pos, r.choice(DELETED_KINDS))
         first = True
         prevk = None
         for k in kinds:
@@ -130,7 +165,10 @@ class Gen:
             saved = self.o["empties"]
             if prevk == "import" and not self.o["empty_after_import"]:
                 self.o["empties"] = False
-            getattr(self, "s_" + k)()
+            if k in DELETED_KINDS:
+                self.s_deleted(k)
+            else:
+                getattr(self, "s_" + k)()
             self.o["empties"] = saved
             prevk = k
             # statements conventionally start on a new line
@@ -138,6 +176,28 @@ class Gen:
                 self.a[start] = ("G", "any-n")
             first = False
         return self.a
+
+    def s_deleted(self, k):
+        """a statement that format.Source deletes"""
+        r = self.r
+        if k == "d_info0":
+            self.t("info"); self.t("("); self.t(")", "any-n")
+        elif k == "d_infoz":
+            self.t("info"); self.t("(")
+            for _ in range(r.randint(1, 3)):
+                self.t(r.choice(["title", "desc", self.ident()]), "any-n"); self.t(":"); self.t(r.choice(['""', '""', "``"]))
+            self.t(")", "any-n")
+        elif k == "d_import":
+            self.t("import"); self.t('""')
+        elif k == "d_imports0":
+            self.t("import"); self.t("("); self.t(")", "any-n")
+        elif k == "d_importsz":
+            self.t("import"); self.t("(")
+            for _ in range(r.randint(1, 3)):
+                self.t('""', "any-n")
+            self.t(")", "any-n")
+        else:
+            self.t("type"); self.t("("); self.t(")", "any-n")
 
     def s_syntax(self):
         self.t("syntax")
